@@ -15,12 +15,14 @@ PROPS = {
     "C01": {
         "quick": [
             {"harness": "H_C01_seq_q", "cases": list(range(8)), "scale": SC},
+            {"harness": "H_C01_chain31", "cases": [4], "scale": "maxSegments=16"},
         ],
         "thorough": [
             {"harness": "H_C01_seq_t", "cases": list(range(8)), "scale": SC},
+            {"harness": "H_C01_chain31", "cases": list(range(9)), "scale": "maxSegments=16", "chunk": 1},
         ],
-        "covers": {"quick": ["C01.seq.done", "C01.level>0", "C01.overflow-bucket-created"]},
-        "bounds": {"quick": "3 keys (8 bytes, symbolic content and hash), prefix of 3 puts + 2 symbolic steps from {put k, delete k, compact, sync}, 2-byte symbolic values, slotsPerBucket scaled to 2, 2 records per segment",
+        "covers": {"quick": ["C01.seq.done", "C01.level>0", "C01.overflow-bucket-created", "C01.chain.done", "C01.chain.overflow-bucket-at-31-slots"]},
+        "bounds": {"quick": "REAL slotsPerBucket=31: 34 keys in one bucket chain (low 3 hash bits equal, full hashes symbolic and distinct), delete of the head bucket's first key then one symbolic step on the keys at the first/last slot of head and overflow bucket (thorough: 2 symbolic steps from 9 operations); scaled part: 3 keys (8 bytes, symbolic content and hash), prefix of 3 puts + 2 symbolic steps from {put k, delete k, compact, sync}, 2-byte symbolic values, slotsPerBucket scaled to 2, 2 records per segment",
                    "thorough": "as quick with 4 symbolic steps"},
         "assumptions": COMMON_ASSUME,
         "outside": "longer histories, more than 3 keys, slotsPerBucket=31 (scaled to 2), level>3, other FileSystems (C17), real MurmurHash (C18)",
@@ -79,16 +81,18 @@ PROPS = {
         "quick": [
             {"harness": "H_C02_seq_q", "cases": list(range(9)), "scale": SC},
             {"harness": "H_C02_meta", "cases": [0, 1, 2, 3], "chunk": 4},
+            {"harness": "H_C02_xfs", "cases": [0, 1], "scale": SC + ",initialMmapSize=1024", "replay": False},
         ],
         "thorough": [
+            {"harness": "H_C02_xfs", "cases": [0, 1], "scale": SC + ",initialMmapSize=1024", "replay": False},
             {"harness": "H_C02_seq_t", "cases": list(range(9)), "scale": SC},
             {"harness": "H_C02_meta", "cases": [0, 1, 2, 3], "chunk": 4},
         ],
-        "covers": {"quick": ["C02.seq.done", "C02.reopen-mid-history", "C02.level>0", "C02.free-overflow-buckets-persisted", "C02.meta.done"]},
+        "covers": {"quick": ["C02x.done", "C02x.reopened-through-the-other-file-system", "C02.seq.done", "C02.reopen-mid-history", "C02.level>0", "C02.free-overflow-buckets-persisted", "C02.meta.done"]},
         "bounds": {"quick": "3 keys, prefix of 3 puts + 2 symbolic steps from {put k, delete k, compact, sync, close+open}, then close+open, full comparison, another idle close+open; metadata round trips with fully symbolic field values and 0..3 free-list entries",
                    "thorough": "4 symbolic steps"},
         "assumptions": COMMON_ASSUME,
-        "outside": "fs.OS <-> fs.OSMMap cross reopen (needs the kernel model, see C17), gob wire format, longer histories",
+        "outside": "gob wire format, longer histories; the OS <-> mmap cross reopen runs over the kernel model (3 sessions alternating file systems, 1 symbolic step each, 2 keys)",
     },
     "C15": {
         "quick": [
@@ -198,15 +202,19 @@ PROPS = {
     "C14": {
         "quick": [
             {"harness": "H_C14_q", "cases": list(range(5)), "scale": SC, "replay": False},
+            {"harness": "H_C14_mmap", "cases": list(range(5)), "scale": SC + ",initialMmapSize=1024", "replay": False},
+            {"harness": "H_C14_os", "cases": list(range(5)), "scale": SC, "replay": False},
         ],
         "thorough": [
             {"harness": "H_C14_t", "cases": list(range(5)), "scale": SC, "replay": False},
+            {"harness": "H_C14_mmap", "cases": list(range(5)), "scale": SC + ",initialMmapSize=1024", "replay": False},
+            {"harness": "H_C14_os", "cases": list(range(5)), "scale": SC, "replay": False},
         ],
         "covers": {"quick": ["C14.done"]},
-        "bounds": {"quick": "fs.Mem; 2 keys, 2 symbolic steps {put, delete, compact}; Get, GetAppend (insufficient and sufficient capacity), full Items scan; heap-provenance obligations on every path + overwrite/compact/close/reopen double check",
+        "bounds": {"quick": "fs.Mem (from source), fs.OS and fs.OSMMap (kernel model, mapping scaled to 1 KiB; reading a result after Close = after munmap is a fault obligation); 2 keys, 2 symbolic steps {put, delete, compact}; Get, GetAppend (insufficient and sufficient capacity), full Items scan; heap-provenance obligations on every path + overwrite/compact/close/reopen double check",
                    "thorough": "3 steps, 3-byte values"},
         "assumptions": COMMON_ASSUME + ["provenance obligations are facts about the engine's heap graph on each explored path (object identity of backing arrays); they are not replayed natively because aliasing of fs.Mem buffers is not observable by a native run"],
-        "outside": "fs.OS / fs.OSMMap (mmap views; needs the kernel model), unmapping faults",
+        "outside": "real page faults of a real process (modelled as an obligation on the mmap view object)",
     },
     "C16": {
         "quick": [
